@@ -398,20 +398,22 @@ def ftrlRun [Transc α] (max35 : α) (r32 : α → α) (hp : FtrlHp α) (p : Nat
 /-! ### the glue around the steps: `Option` model in, guard, the caller's loop -/
 
 /-- `fit_with(model_in, batch)` of both naive-Bayes learners: `None` is the empty map
-(`HashMap::new()`), the `?` on `max()` is the guard (`none` = `Err`), otherwise one step -/
-def nbFitWith {σ : Type} (step : σ → Batch α → σ) (empty : σ) (p : Nat) (model : Option σ)
-    (b : Batch α) : Option σ :=
-  if nbGuard p b then some (step (model.getD empty) b) else none
+(`HashMap::new()`), `guard` is what makes the call return `Err` (`none`), otherwise one step.
+Gaussian: `guard = nbGuard p` (the `?` on `max()` of the batch variances); multinomial: no error
+path at all (`guard = fun _ => true`: an empty batch is accepted and changes nothing). -/
+def nbFitWith {σ : Type} (step : σ → Batch α → σ) (empty : σ) (guard : Batch α → Bool)
+    (model : Option σ) (b : Batch α) : Option σ :=
+  if guard b then some (step (model.getD empty) b) else none
 
 /-- the caller's loop `model = params.fit_with(model, &batch)?` over a history: the models after every
 batch, `none` as soon as one call returns an error -/
-def nbFitHistory {σ : Type} (step : σ → Batch α → σ) (empty : σ) (p : Nat) :
+def nbFitHistory {σ : Type} (step : σ → Batch α → σ) (empty : σ) (guard : Batch α → Bool) :
     Option σ → List (Batch α) → Option (List σ)
   | _, [] => some []
   | model, b :: rest =>
-    match nbFitWith step empty p model b with
+    match nbFitWith step empty guard model b with
     | none => none
-    | some s => (nbFitHistory step empty p (some s) rest).map (s :: ·)
+    | some s => (nbFitHistory step empty guard (some s) rest).map (s :: ·)
 
 /-- the fresh model of k-means `fit_with(None, ..)` with `KMeansInit::Precomputed(c0)`: the given
 centroids, `cluster_count = Array1::zeros(n_clusters)` -/
